@@ -30,6 +30,8 @@ META = {
     "level_note": "Trusts the table of copying constructors and of per-render objects printed in the evidence. "
     "Third-party code handed caller data (json.dumps, babel) is assumed not to mutate it.",
 }
+META["technique"] += '; scope-stack ownership and push/pop pairing (shared with C07)'
+META["level_text"] += ' Also decided (R4): the order cannot be disturbed at run time - block scopes are pushed/popped only by RenderContext.extend, in try/finally.'
 
 COPYING_CALLS = {"list", "dict", "set", "tuple", "sorted", "frozenset", "deque", "defaultdict", "OrderedDict", "bytearray", "deepcopy", "copy", "reversed", "str", "bytes", "int", "float", "Decimal", "chain", "islice", "zip", "enumerate", "map", "filter", "iter", "range", "partial"}
 COPYING_METHODS = {"copy", "split", "rsplit", "splitlines", "partition", "rpartition", "items", "keys", "values", "lower", "upper", "strip", "lstrip", "rstrip", "replace", "join", "format", "encode", "decode", "findall", "children", "expressions"}
